@@ -74,22 +74,36 @@ var (
 	wPunct  = []string{"!!!", "...", "--", "?", "(", ")", ",", ";", "'"}
 )
 
+func genWord(r *vh.Rng) string {
+	switch p := r.Intn(100); {
+	case p < 50:
+		return vh.Pick(r, wNormal)
+	case p < 65:
+		return vh.Pick(r, wStop)
+	case p < 77:
+		return vh.Pick(r, wMixed)
+	case p < 90:
+		return vh.Pick(r, wUni)
+	}
+	return vh.Pick(r, wPunct)
+}
+
 func genText(r *vh.Rng, maxWords int) string {
 	n := r.Intn(maxWords + 1)
 	ws := make([]string, 0, n)
-	for i := 0; i < n; i++ {
-		switch p := r.Intn(100); {
-		case p < 50:
-			ws = append(ws, vh.Pick(r, wNormal))
-		case p < 65:
-			ws = append(ws, vh.Pick(r, wStop))
-		case p < 77:
-			ws = append(ws, vh.Pick(r, wMixed))
-		case p < 90:
-			ws = append(ws, vh.Pick(r, wUni))
-		default:
-			ws = append(ws, vh.Pick(r, wPunct))
+	if r.Chance(35) {
+		// few distinct words, repeated: term frequencies above one
+		voc := make([]string, 1+r.Intn(3))
+		for i := range voc {
+			voc[i] = genWord(r)
 		}
+		for i := 0; i < n; i++ {
+			ws = append(ws, vh.Pick(r, voc))
+		}
+		return strings.Join(ws, " ")
+	}
+	for i := 0; i < n; i++ {
+		ws = append(ws, genWord(r))
 	}
 	return strings.Join(ws, " ")
 }
@@ -108,6 +122,248 @@ func genBlank(r *vh.Rng) string {
 	return strings.Join(ws, " ")
 }
 
+// ---------------------------------------------------------------- related rewrites
+//
+// A rewrite drawn independently of the old text almost always changes every statistic of the
+// document at once (vocabulary, length, frequencies, the document frequency of its terms).  The
+// rewrites below are derived from a text the point has or had, so that SOME statistics survive the
+// change while others move: same token sequence under a different raw text, same multiset in another
+// order, same vocabulary and length with an occurrence moved from one term to another, two terms
+// exchanged everywhere, a term renamed, one occurrence replaced / doubled / dropped, every
+// occurrence doubled (tf unchanged), the text of another live document, an earlier text of the same
+// point (A -> B -> A, A -> blank -> A, A -> field removed -> A, deleted point re-inserted with its
+// text).  `rewriteClass` measures afterwards what a change really preserved; the counts go into
+// the evidence.
+
+var tokenPool []string // every token the word lists can produce
+
+func initTokenPool() {
+	seen := map[string]bool{}
+	for _, ws := range [][]string{wNormal, wMixed, wUni} {
+		for _, w := range ws {
+			for _, t := range analyse(w) {
+				if !seen[t] {
+					seen[t] = true
+					tokenPool = append(tokenPool, t)
+				}
+			}
+		}
+	}
+	sort.Strings(tokenPool)
+}
+
+func sameSeq(a, b []string) bool {
+	if len(a) != len(b) {
+		return false
+	}
+	for i := range a {
+		if a[i] != b[i] {
+			return false
+		}
+	}
+	return true
+}
+
+func counts(ts []string) map[string]int {
+	m := map[string]int{}
+	for _, t := range ts {
+		m[t]++
+	}
+	return m
+}
+
+func firstOccurrences(ts []string) []string {
+	seen := map[string]bool{}
+	var out []string
+	for _, t := range ts {
+		if !seen[t] {
+			seen[t] = true
+			out = append(out, t)
+		}
+	}
+	return out
+}
+
+// a raw text that analyses to exactly `ts`: case variants, stop words and punctuation sprinkled in
+func decorate(r *vh.Rng, ts []string) string {
+	ws := make([]string, 0, len(ts)+2)
+	for _, t := range ts {
+		if r.Chance(15) {
+			if r.Bool() {
+				ws = append(ws, vh.Pick(r, wStop))
+			} else {
+				ws = append(ws, vh.Pick(r, wPunct))
+			}
+		}
+		v := t
+		if r.Chance(25) {
+			if up := strings.ToUpper(t); sameSeq(analyse(up), []string{t}) {
+				v = up
+			}
+		}
+		ws = append(ws, v)
+	}
+	if r.Chance(15) {
+		ws = append(ws, vh.Pick(r, wStop))
+	}
+	text := strings.Join(ws, " ")
+	if !sameSeq(analyse(text), ts) {
+		text = strings.Join(ts, " ")
+	}
+	return text
+}
+
+
+// kinds 3 and 4 (frequencies move inside an unchanged vocabulary) and 11 (back to an earlier text)
+// need a document with a repeated term / a past, so they are drawn more often
+var relatedKindWeights = []int{0, 1, 2, 3, 3, 3, 3, 4, 4, 4, 5, 6, 7, 8, 9, 10, 11, 11}
+
+func pickRelatedKind(r *vh.Rng) int { return vh.Pick(r, relatedKindWeights) }
+
+// a text derived from what the point holds now (or held before, when it holds no token now)
+func (w *world) relatedText(r *vh.Rng, mp *mpoint, kind int) (string, bool) {
+	var base []string
+	if mp.text != nil {
+		base = analyse(*mp.text)
+	}
+	if len(base) == 0 {
+		// blanked out or field removed: back to an earlier text of this point, or to a variant of it
+		if len(mp.past) == 0 {
+			return "", false
+		}
+		t := vh.Pick(r, mp.past)
+		if r.Chance(60) {
+			return t, true
+		}
+		base = analyse(t)
+	}
+	ts := append([]string(nil), base...)
+	// The same edits are also made on the raw words of the text as it stands (stop words, case and
+	// punctuation included): then the raw word set / word count survive as well, not only token
+	// statistics.  Otherwise the edited token list is written out plainly or decorated.
+	style := r.Intn(100)
+	if style < 35 && mp.text != nil && len(analyse(*mp.text)) > 0 {
+		ts = strings.Fields(*mp.text)
+	}
+	terms := firstOccurrences(ts)
+	has := counts(ts)
+	fresh := func() string {
+		for k := 0; k < 20; k++ {
+			if t := vh.Pick(r, tokenPool); has[t] == 0 {
+				return t
+			}
+		}
+		return "zulu"
+	}
+	switch kind {
+	case 0: // the very same raw text again
+		if mp.text != nil && len(analyse(*mp.text)) > 0 {
+			return *mp.text, true
+		}
+	case 1: // same token sequence, other raw text
+		style = 99
+	case 2: // same multiset, other order
+		for i := len(ts) - 1; i > 0; i-- {
+			j := r.Intn(i + 1)
+			ts[i], ts[j] = ts[j], ts[i]
+		}
+	case 3: // one occurrence moves to another term of the document: length kept, vocabulary kept or shrunk by one
+		if len(terms) >= 2 {
+			i := r.Intn(len(ts))
+			for k := 0; k < 8 && has[ts[i]] < 2; k++ { // rather an occurrence of a repeated term: the vocabulary stays
+				i = r.Intn(len(ts))
+			}
+			for k := 0; k < 20; k++ {
+				if t := vh.Pick(r, terms); t != ts[i] {
+					ts[i] = t
+					break
+				}
+			}
+		}
+	case 4: // two terms exchanged everywhere: vocabulary, length and the multiset of frequencies kept
+		if len(terms) >= 2 {
+			a := vh.Pick(r, terms)
+			b := vh.Pick(r, terms)
+			for k := 0; k < 8 && has[a] == has[b]; k++ { // rather two terms of different frequency
+				b = vh.Pick(r, terms)
+			}
+			for i, t := range ts {
+				if t == a {
+					ts[i] = b
+				} else if t == b {
+					ts[i] = a
+				}
+			}
+		}
+	case 5: // one term renamed everywhere: length and frequency profile kept, vocabulary changed
+		a, b := vh.Pick(r, terms), fresh()
+		for i, t := range ts {
+			if t == a {
+				ts[i] = b
+			}
+		}
+	case 6: // one occurrence replaced by a term the document does not have
+		ts[r.Intn(len(ts))] = fresh()
+	case 7: // one occurrence doubled: vocabulary kept, length + 1
+		ts = append(ts, ts[r.Intn(len(ts))])
+	case 8: // one occurrence dropped: length - 1, vocabulary kept or shrunk by one
+		if len(ts) >= 2 {
+			i := r.Intn(len(ts))
+			ts = append(ts[:i], ts[i+1:]...)
+		}
+	case 9: // every occurrence doubled: every tf unchanged, length doubled
+		if len(ts) <= 8 {
+			ts = append(ts, ts...)
+		}
+	case 10: // the text of another live document
+		var others []string
+		for _, id := range w.liveIds() {
+			if o := w.points[id]; o != mp && o.text != nil && len(analyse(*o.text)) > 0 {
+				others = append(others, *o.text)
+			}
+		}
+		if len(others) > 0 {
+			return vh.Pick(r, others), true
+		}
+	case 11: // an earlier text of this point
+		if len(mp.past) > 0 {
+			return vh.Pick(r, mp.past), true
+		}
+	}
+	if style < 60 {
+		return strings.Join(ts, " "), true
+	}
+	return decorate(r, ts), true
+}
+
+// what a change of a non-empty token list into a non-empty token list preserved
+func rewriteClass(prev, cur []string) string {
+	if sameSeq(prev, cur) {
+		return "rewrite:same-token-sequence"
+	}
+	cp, cc := counts(prev), counts(cur)
+	sameVocab := len(cp) == len(cc)
+	sameCounts := sameVocab
+	for t, n := range cp {
+		if cc[t] == 0 {
+			sameVocab, sameCounts = false, false
+		} else if cc[t] != n {
+			sameCounts = false
+		}
+	}
+	switch {
+	case sameCounts:
+		return "rewrite:same-multiset-other-order"
+	case sameVocab && len(prev) == len(cur):
+		return "rewrite:same-vocabulary-same-length-frequencies-moved"
+	case sameVocab:
+		return "rewrite:same-vocabulary-other-length"
+	case len(prev) == len(cur):
+		return "rewrite:other-vocabulary-same-length"
+	}
+	return "rewrite:other-vocabulary-other-length"
+}
+
 // ---------------------------------------------------------------- the harness' own picture of the collection
 
 type mpoint struct {
@@ -115,6 +371,22 @@ type mpoint struct {
 	node uint64
 	text *string // nil: the point has no text property
 	g    int64
+	past []string // earlier texts of this point (of this uuid, across deletion) with at least one token
+}
+
+func (mp *mpoint) remember(old *string) {
+	if old == nil || len(analyse(*old)) == 0 {
+		return
+	}
+	for _, t := range mp.past {
+		if t == *old {
+			return
+		}
+	}
+	mp.past = append(mp.past, *old)
+	if len(mp.past) > 4 {
+		mp.past = mp.past[1:]
+	}
 }
 
 type world struct {
@@ -122,6 +394,19 @@ type world struct {
 	s      *shard.Shard
 	points map[uuid.UUID]*mpoint
 	hist   []string // op lines since `new` (replay of a failure)
+	grave  map[uuid.UUID][]string // texts a deleted point had, by uuid
+	focus  []string               // raw words of the texts the last batch replaced or wrote
+	state  map[uint64][][]string  // token lists each node has gone through (to measure returns to an earlier state)
+	suspects []string             // terms on which the bucket differs from the corpus statistics (aims queries)
+}
+
+func (w *world) liveIds() []uuid.UUID {
+	ids := make([]uuid.UUID, 0, len(w.points))
+	for id := range w.points {
+		ids = append(ids, id)
+	}
+	sort.Slice(ids, func(i, j int) bool { return ids[i].String() < ids[j].String() })
+	return ids
 }
 
 func encodePoint(prop string, text *string, g int64, withG bool) []byte {
@@ -159,7 +444,7 @@ func newWorld(prop string, dir string, file bool, n int) *world {
 	if err != nil {
 		panic(err)
 	}
-	return &world{prop: prop, s: s, points: map[uuid.UUID]*mpoint{}}
+	return &world{prop: prop, s: s, points: map[uuid.UUID]*mpoint{}, grave: map[uuid.UUID][]string{}, state: map[uint64][][]string{}}
 }
 
 // tokens of the live documents whose token list is non-empty, by node id
@@ -194,22 +479,29 @@ func (w *world) nodeIds(ids []uuid.UUID) map[uuid.UUID]uint64 {
 	return m
 }
 
-// canonical dump of the text index bucket, same format as the model driver's `dumpIndex`
-func (w *world) dumpIndex() string {
+// the text index bucket, decoded
+type docState struct {
+	length int
+	freqs  map[string]int
+}
+
+type idxState struct {
+	numDocs uint64
+	sets    map[string][]uint64 // term -> posting (ascending)
+	docs    map[uint64]docState
+	odd     []string // keys of no known shape
+	err     error
+}
+
+func (w *world) readIndex() idxState {
 	type docRec struct {
 		Terms map[string]struct {
 			Frequency int `msgpack:"frequency"`
 		} `msgpack:"terms"`
 		Length int `msgpack:"length"`
 	}
-	numDocs := uint64(0)
-	var sets, docs []string
-	type drow struct {
-		id uint64
-		s  string
-	}
-	var drows []drow
-	err := w.s.VerifDB().Read(func(bm diskstore.BucketManager) error {
+	st := idxState{sets: map[string][]uint64{}, docs: map[uint64]docState{}}
+	st.err = w.s.VerifDB().Read(func(bm diskstore.BucketManager) error {
 		b, err := bm.Get("index/text/" + w.prop)
 		if err != nil {
 			return nil
@@ -217,45 +509,147 @@ func (w *world) dumpIndex() string {
 		return b.ForEach(func(k, v []byte) error {
 			switch {
 			case string(k) == "_numDocuments":
-				numDocs = conversion.BytesToUint64(v)
+				st.numDocs = conversion.BytesToUint64(v)
 			case len(k) >= 2 && k[0] == 't' && k[len(k)-1] == 's':
 				rs := roaring64.New()
 				if _, err := rs.ReadFrom(bytes.NewReader(v)); err != nil {
 					return err
 				}
-				ids := rs.ToArray()
-				ss := make([]string, len(ids))
-				for i, id := range ids {
-					ss[i] = strconv.FormatUint(id, 10)
-				}
-				sets = append(sets, hex.EncodeToString(k[1:len(k)-1])+":"+strings.Join(ss, ","))
+				st.sets[string(k[1:len(k)-1])] = rs.ToArray()
 			case len(k) == 9 && k[0] == 'd':
 				var rec docRec
 				if err := msgpack.Unmarshal(v, &rec); err != nil {
 					return err
 				}
-				var fs []string
+				d := docState{length: rec.Length, freqs: map[string]int{}}
 				for t, f := range rec.Terms {
-					fs = append(fs, hex.EncodeToString([]byte(t))+"="+strconv.Itoa(f.Frequency))
+					d.freqs[t] = f.Frequency
 				}
-				sort.Strings(fs)
-				id := conversion.BytesToUint64(k[1:])
-				drows = append(drows, drow{id, fmt.Sprintf("%d:%d:%s", id, rec.Length, strings.Join(fs, ","))})
+				st.docs[conversion.BytesToUint64(k[1:])] = d
 			default:
-				sets = append(sets, "?"+hex.EncodeToString(k))
+				st.odd = append(st.odd, "?"+hex.EncodeToString(k))
 			}
 			return nil
 		})
 	})
-	if err != nil {
-		return "dump-error:" + err.Error()
+	return st
+}
+
+// canonical dump, same format as the model driver's `dumpIndex` (postings ordered by the hex term)
+func (st idxState) String() string {
+	if st.err != nil {
+		return "dump-error:" + st.err.Error()
 	}
+	keys := make([]string, 0, len(st.sets))
+	for t := range st.sets {
+		keys = append(keys, hex.EncodeToString([]byte(t)))
+	}
+	sort.Strings(keys)
+	sets := append([]string(nil), st.odd...)
 	sort.Strings(sets)
-	sort.Slice(drows, func(i, j int) bool { return drows[i].id < drows[j].id })
-	for _, d := range drows {
-		docs = append(docs, d.s)
+	for _, hk := range keys {
+		t, _ := hex.DecodeString(hk)
+		ids := st.sets[string(t)]
+		ss := make([]string, len(ids))
+		for i, id := range ids {
+			ss[i] = strconv.FormatUint(id, 10)
+		}
+		sets = append(sets, hk+":"+strings.Join(ss, ","))
 	}
-	return fmt.Sprintf("n=%d sets=%s docs=%s", numDocs, strings.Join(sets, "|"), strings.Join(docs, "|"))
+	ids := make([]uint64, 0, len(st.docs))
+	for id := range st.docs {
+		ids = append(ids, id)
+	}
+	sort.Slice(ids, func(i, j int) bool { return ids[i] < ids[j] })
+	docs := make([]string, 0, len(ids))
+	for _, id := range ids {
+		d := st.docs[id]
+		var fs []string
+		for t, f := range d.freqs {
+			fs = append(fs, hex.EncodeToString([]byte(t))+"="+strconv.Itoa(f))
+		}
+		sort.Strings(fs)
+		docs = append(docs, fmt.Sprintf("%d:%d:%s", id, d.length, strings.Join(fs, ",")))
+	}
+	return fmt.Sprintf("n=%d sets=%s docs=%s", st.numDocs, strings.Join(sets, "|"), strings.Join(docs, "|"))
+}
+
+func (w *world) dumpIndex() string { return w.readIndex().String() }
+
+// Terms on which the stored bucket differs from the statistics of the harness' corpus computed from
+// scratch (corpus size, posting of a term, record of a document).  Used ONLY to aim extra queries:
+// the verdict always comes from the property oracle on a real query answer.  Empty on a tree that
+// maintains the index correctly.
+func (w *world) suspectTerms(st idxState) []string {
+	corpus := w.corpus()
+	sus := map[string]bool{}
+	post := map[string][]uint64{}
+	for node, ts := range corpus {
+		for t := range counts(ts) {
+			post[t] = append(post[t], node)
+		}
+	}
+	allOf := func(node uint64) {
+		for _, t := range corpus[node] {
+			sus[t] = true
+		}
+		for t := range st.docs[node].freqs {
+			sus[t] = true
+		}
+	}
+	for t, ids := range post {
+		sort.Slice(ids, func(i, j int) bool { return ids[i] < ids[j] })
+		got := st.sets[t]
+		if len(got) != len(ids) {
+			sus[t] = true
+			continue
+		}
+		for i := range ids {
+			if ids[i] != got[i] {
+				sus[t] = true
+			}
+		}
+	}
+	for t, ids := range st.sets {
+		if len(post[t]) == 0 && len(ids) > 0 {
+			sus[t] = true
+		}
+	}
+	for node, ts := range corpus {
+		d, ok := st.docs[node]
+		if !ok || d.length != len(ts) {
+			allOf(node)
+			continue
+		}
+		c := counts(ts)
+		if len(c) != len(d.freqs) {
+			allOf(node)
+			continue
+		}
+		for t, n := range c {
+			if d.freqs[t] != n {
+				sus[t] = true
+			}
+		}
+	}
+	for node := range st.docs {
+		if _, ok := corpus[node]; !ok {
+			allOf(node)
+		}
+	}
+	if st.numDocs != uint64(len(corpus)) {
+		for _, ts := range corpus {
+			for _, t := range ts {
+				sus[t] = true
+			}
+		}
+	}
+	out := make([]string, 0, len(sus))
+	for t := range sus {
+		out = append(out, t)
+	}
+	sort.Strings(out)
+	return out
 }
 
 // ---------------------------------------------------------------- batches
@@ -295,121 +689,145 @@ func batchLine(cs []change) string {
 
 func (w *world) emitBatch(o *vh.Out, kind string, cs []change) {
 	line := batchLine(cs)
-	w.hist = append(w.hist, line)
 	nontrivial := false
+	w.focus = w.focus[:0]
+	var raw []string
 	for _, c := range cs {
 		if c.prev != nil || c.cur != nil {
 			nontrivial = true
 		}
+		var pt, ct []string
+		if c.prev != nil {
+			pt = analyse(*c.prev)
+			w.focus = append(w.focus, strings.Fields(*c.prev)...)
+		}
+		if c.cur != nil {
+			ct = analyse(*c.cur)
+			w.focus = append(w.focus, strings.Fields(*c.cur)...)
+			raw = append(raw, fmt.Sprintf("%d=%q", c.node, *c.cur))
+		}
+		// what did the change preserve?  (measured, not intended)
+		switch {
+		case len(pt) > 0 && len(ct) > 0:
+			o.Stats[rewriteClass(pt, ct)]++
+		case len(pt) > 0 && c.cur != nil:
+			o.Stats["rewrite:tokens-to-none"]++
+		case len(pt) == 0 && len(ct) > 0 && c.prev != nil:
+			o.Stats["rewrite:none-to-tokens"]++
+		}
+		past := w.state[c.node]
+		if n := len(past); n > 0 && !sameSeq(past[n-1], ct) {
+			for _, old := range past[:n-1] {
+				if sameSeq(old, ct) && len(ct) > 0 {
+					o.Stats["rewrite:back-to-an-earlier-token-list"]++
+					break
+				}
+			}
+		}
+		if n := len(past); n == 0 || !sameSeq(past[n-1], ct) {
+			w.state[c.node] = append(past, ct)
+		}
 	}
-	o.Emit(kind, line, w.dumpIndex(), nontrivial)
+	sort.Strings(w.focus)
+	if len(raw) > 0 {
+		w.hist = append(w.hist, "# raw texts of the next batch: "+strings.Join(raw, " "))
+	}
+	w.hist = append(w.hist, line)
+	st := w.readIndex()
+	o.Emit(kind, line, st.String(), nontrivial)
+	w.suspects = w.suspectTerms(st)
 }
 
 func sp(s string) *string { return &s }
 
-func (w *world) insert(o *vh.Out, r *vh.Rng, pool []uuid.UUID) {
-	n := 1 + r.Intn(9)
-	var pts []models.Point
-	var fresh []*mpoint
-	seen := map[uuid.UUID]bool{}
-	for i := 0; i < n; i++ {
-		id := vh.Pick(r, pool)
-		if _, live := w.points[id]; live || seen[id] {
-			continue
-		}
-		seen[id] = true
-		mp := &mpoint{id: id, g: int64(r.Intn(4))}
-		switch p := r.Intn(100); {
-		case p < 70:
-			mp.text = sp(genText(r, 9))
-		case p < 82:
-			mp.text = sp(genBlank(r))
-		case p < 88:
-			mp.text = sp("")
-		}
-		pts = append(pts, models.Point{Id: id, Data: encodePoint(w.prop, mp.text, mp.g, true)})
-		fresh = append(fresh, mp)
-	}
-	if len(pts) == 0 {
+// ---- applying a batch to the real shard and to the harness' picture
+
+func (w *world) applyInsert(o *vh.Out, fresh []*mpoint) {
+	if len(fresh) == 0 {
 		return
+	}
+	pts := make([]models.Point, len(fresh))
+	ids := make([]uuid.UUID, len(fresh))
+	for i, mp := range fresh {
+		pts[i] = models.Point{Id: mp.id, Data: encodePoint(w.prop, mp.text, mp.g, true)}
+		ids[i] = mp.id
 	}
 	if err := w.s.InsertPoints(pts); err != nil {
 		panic(fmt.Sprintf("valid insert batch rejected: %v", err))
-	}
-	ids := make([]uuid.UUID, len(fresh))
-	for i, mp := range fresh {
-		ids[i] = mp.id
 	}
 	nodes := w.nodeIds(ids)
 	var cs []change
 	for _, mp := range fresh {
 		mp.node = nodes[mp.id]
+		mp.past = append([]string(nil), w.grave[mp.id]...)
+		for _, t := range mp.past {
+			if mp.text != nil && t == *mp.text {
+				o.Stats["insert:deleted-point-returns-with-a-text-it-had"]++
+				break
+			}
+		}
 		w.points[mp.id] = mp
+		delete(w.state, mp.node) // a node id may be reused by a new point
 		cs = append(cs, change{node: mp.node, prev: nil, cur: mp.text})
 	}
 	w.emitBatch(o, "batch-insert", cs)
 }
 
-func (w *world) update(o *vh.Out, r *vh.Rng, pool []uuid.UUID, allowDup bool) {
-	n := 1 + r.Intn(6)
+const (
+	uSet    = iota // write the text property
+	uRemove        // `_delete` the text property
+	uOther         // leave the text alone, write `g`
+)
+
+type upd struct {
+	id   uuid.UUID
+	mode int
+	text string
+	g    int64
+}
+
+func (w *world) applyUpdate(o *vh.Out, us []upd) {
 	var pts []models.Point
 	var cs []change
-	seen := map[uuid.UUID]bool{}
-	for i := 0; i < n; i++ {
-		id := vh.Pick(r, pool)
-		if seen[id] && !(allowDup && r.Chance(60)) {
-			continue
-		}
-		seen[id] = true
-		mp, live := w.points[id]
+	top := strings.SplitN(w.prop, ".", 2)
+	for _, u := range us {
 		m := map[string]any{}
-		var cur *string
-		if live {
-			cur = mp.text
-		}
-		switch p := r.Intn(100); {
-		case p < 45: // rewrite
-			cur = sp(genText(r, 9))
-		case p < 65: // blank out: only stop words / punctuation
-			cur = sp(genBlank(r))
-		case p < 80: // remove the field
-			cur = nil
-		default: // leave the text alone, change something else
-			m["g"] = int64(r.Intn(4))
-		}
-		if _, other := m["g"]; !other {
-			top := strings.SplitN(w.prop, ".", 2)
-			if cur == nil {
-				m[top[0]] = "_delete"
-			} else if len(top) == 2 {
-				m[top[0]] = map[string]any{top[1]: *cur, "other": "y"}
+		switch u.mode {
+		case uSet:
+			if len(top) == 2 {
+				m[top[0]] = map[string]any{top[1]: u.text, "other": "y"}
 			} else {
-				m[w.prop] = *cur
+				m[w.prop] = u.text
 			}
+		case uRemove:
+			m[top[0]] = "_delete"
+		default:
+			m["g"] = u.g
 		}
 		data, _ := msgpack.Marshal(m)
-		pts = append(pts, models.Point{Id: id, Data: data})
-		if live {
-			cs = append(cs, change{node: mp.node, prev: mp.text, cur: cur})
-			mp.text = cur
-			if g, ok := m["g"]; ok {
-				mp.g = g.(int64)
+		pts = append(pts, models.Point{Id: u.id, Data: data})
+		if mp, live := w.points[u.id]; live {
+			cur := mp.text
+			switch u.mode {
+			case uSet:
+				cur = sp(u.text)
+			case uRemove:
+				cur = nil
+			default:
+				mp.g = u.g
 			}
+			cs = append(cs, change{node: mp.node, prev: mp.text, cur: cur})
+			mp.remember(mp.text)
+			mp.text = cur
 		}
 	}
 	if _, err := w.s.UpdatePoints(pts); err != nil {
 		panic(fmt.Sprintf("valid update batch rejected: %v", err))
 	}
-	kind := "batch-update"
-	w.emitBatch(o, kind, cs)
+	w.emitBatch(o, "batch-update", cs)
 }
 
-func (w *world) delete(o *vh.Out, r *vh.Rng, pool []uuid.UUID) {
-	n := 1 + r.Intn(4)
-	set := map[uuid.UUID]struct{}{}
-	for i := 0; i < n; i++ {
-		set[vh.Pick(r, pool)] = struct{}{}
-	}
+func (w *world) applyDelete(o *vh.Out, set map[uuid.UUID]struct{}) {
 	var cs []change
 	// deterministic entry order for the op line (ids are distinct, the order is irrelevant: C05_order_distinct)
 	var ids []uuid.UUID
@@ -420,6 +838,8 @@ func (w *world) delete(o *vh.Out, r *vh.Rng, pool []uuid.UUID) {
 	for _, id := range ids {
 		if mp, live := w.points[id]; live {
 			cs = append(cs, change{node: mp.node, prev: mp.text, cur: nil})
+			mp.remember(mp.text)
+			w.grave[id] = mp.past
 			delete(w.points, id)
 		}
 	}
@@ -427,6 +847,159 @@ func (w *world) delete(o *vh.Out, r *vh.Rng, pool []uuid.UUID) {
 		panic(fmt.Sprintf("delete batch rejected: %v", err))
 	}
 	w.emitBatch(o, "batch-delete", cs)
+}
+
+// ---- generated batches
+
+func (w *world) insert(o *vh.Out, r *vh.Rng, pool []uuid.UUID) {
+	n := 1 + r.Intn(9)
+	var fresh []*mpoint
+	seen := map[uuid.UUID]bool{}
+	for i := 0; i < n; i++ {
+		id := vh.Pick(r, pool)
+		if _, live := w.points[id]; live || seen[id] {
+			continue
+		}
+		seen[id] = true
+		mp := &mpoint{id: id, g: int64(r.Intn(4))}
+		switch p := r.Intn(100); {
+		case p < 50:
+			mp.text = sp(genText(r, 9))
+		case p < 60: // a point deleted earlier comes back with a text it had (else: any text)
+			if old := w.grave[id]; len(old) > 0 {
+				mp.text = sp(old[len(old)-1])
+				if r.Chance(30) {
+					mp.text = sp(vh.Pick(r, old))
+				}
+			} else {
+				mp.text = sp(genText(r, 9))
+			}
+		case p < 70: // a text related to one that is live (copy or variant), or to one this uuid had
+			var src []*mpoint
+			for _, lid := range w.liveIds() {
+				if q := w.points[lid]; q.text != nil && len(analyse(*q.text)) > 0 {
+					src = append(src, q)
+				}
+			}
+			if old := w.grave[id]; len(old) > 0 && (len(src) == 0 || r.Bool()) {
+				src = []*mpoint{{text: sp(vh.Pick(r, old))}}
+			}
+			if len(src) == 0 {
+				mp.text = sp(genText(r, 9))
+			} else if t, ok := w.relatedText(r, vh.Pick(r, src), r.Intn(10)); ok {
+				mp.text = sp(t)
+			}
+		case p < 82:
+			mp.text = sp(genBlank(r))
+		case p < 88:
+			mp.text = sp("")
+		}
+		fresh = append(fresh, mp)
+	}
+	w.applyInsert(o, fresh)
+}
+
+// the texts of two or three live documents rotate: corpus size and every document frequency stay,
+// every record involved changes
+func (w *world) rotate(r *vh.Rng) []upd {
+	var with []*mpoint
+	for _, id := range w.liveIds() {
+		if mp := w.points[id]; mp.text != nil && len(analyse(*mp.text)) > 0 {
+			with = append(with, mp)
+		}
+	}
+	if len(with) < 2 {
+		return nil
+	}
+	k := 2 + r.Intn(2)
+	if k > len(with) {
+		k = len(with)
+	}
+	for i := 0; i < k; i++ { // partial shuffle: the first k are the chosen ones
+		j := i + r.Intn(len(with)-i)
+		with[i], with[j] = with[j], with[i]
+	}
+	us := make([]upd, k)
+	for i := 0; i < k; i++ {
+		us[i] = upd{id: with[i].id, mode: uSet, text: *with[(i+1)%k].text}
+	}
+	return us
+}
+
+func (w *world) update(o *vh.Out, r *vh.Rng, pool []uuid.UUID, allowDup bool) {
+	if r.Chance(10) {
+		if us := w.rotate(r); us != nil {
+			o.Stats["batch-rotates-texts"]++
+			w.applyUpdate(o, us)
+			return
+		}
+	}
+	n := 1 + r.Intn(6)
+	var us []upd
+	seen := map[uuid.UUID]bool{}
+	// texts as they will stand when the entries before this one are applied (a batch may name a point twice)
+	type pending struct {
+		text *string
+		past []string
+	}
+	now := map[uuid.UUID]*pending{}
+	for i := 0; i < n; i++ {
+		id := vh.Pick(r, pool)
+		if seen[id] && !(allowDup && r.Chance(60)) {
+			continue
+		}
+		seen[id] = true
+		mp, live := w.points[id]
+		u := upd{id: id}
+		var view *mpoint
+		if live {
+			pd := now[id]
+			if pd == nil {
+				pd = &pending{text: mp.text, past: mp.past}
+				now[id] = pd
+			}
+			view = &mpoint{id: id, node: mp.node, text: pd.text, past: pd.past}
+		}
+		switch p := r.Intn(100); {
+		case p < 27: // rewrite, unrelated to the old text
+			u.mode, u.text = uSet, genText(r, 9)
+		case p < 52: // rewrite related to the old text (or to an earlier one)
+			u.mode, u.text = uSet, genText(r, 9)
+			if view != nil {
+				if t, ok := w.relatedText(r, view, pickRelatedKind(r)); ok {
+					u.text = t
+				}
+			}
+		case p < 67: // blank out: only stop words / punctuation
+			u.mode, u.text = uSet, genBlank(r)
+		case p < 80: // remove the field
+			u.mode = uRemove
+		default: // leave the text alone, change something else
+			u.mode, u.g = uOther, int64(r.Intn(4))
+		}
+		if view != nil && u.mode != uOther {
+			pd := now[id]
+			v := &mpoint{past: append([]string(nil), pd.past...)}
+			v.remember(pd.text)
+			pd.past = v.past
+			if u.mode == uSet {
+				pd.text = sp(u.text)
+			} else {
+				pd.text = nil
+			}
+		}
+		us = append(us, u)
+	}
+	w.applyUpdate(o, us)
+}
+
+func (w *world) delete(o *vh.Out, r *vh.Rng, pool []uuid.UUID) {
+	n := 1 + r.Intn(4)
+	set := map[uuid.UUID]struct{}{}
+	for i := 0; i < n; i++ {
+		set[vh.Pick(r, pool)] = struct{}{}
+	}
+	w.applyDelete(o, set)
 }
 
 // ---------------------------------------------------------------- queries
@@ -454,7 +1027,14 @@ func (w *world) genQuery(r *vh.Rng) query {
 	}
 	sort.Strings(live)
 	switch p := r.Intn(100); {
-	case p < 45 && len(live) > 0:
+	case p < 20 && len(w.focus) > 0: // words of the texts the last batch replaced or wrote
+		n := 1 + r.Intn(2)
+		var ws []string
+		for i := 0; i < n; i++ {
+			ws = append(ws, vh.Pick(r, w.focus))
+		}
+		q.text = strings.Join(ws, " ")
+	case p < 50 && len(live) > 0:
 		n := 1 + r.Intn(3)
 		var ws []string
 		for i := 0; i < n; i++ {
@@ -464,9 +1044,9 @@ func (w *world) genQuery(r *vh.Rng) query {
 			ws = append(ws, strings.ToUpper(ws[0]))
 		}
 		q.text = strings.Join(ws, " ")
-	case p < 60:
+	case p < 62:
 		q.text = genText(r, 4)
-	case p < 67:
+	case p < 68:
 		q.text = genBlank(r) // analyses to zero terms
 	case p < 80: // repeated terms
 		t := vh.Pick(r, wNormal)
@@ -492,10 +1072,10 @@ func (w *world) genQuery(r *vh.Rng) query {
 	default:
 		q.hasFilt = true
 		var ss []string
-		for id, mp := range w.points {
+		for _, id := range w.liveIds() { // fixed order: every random choice derives from the seed
 			if r.Bool() {
 				ss = append(ss, id.String())
-				q.fids = append(q.fids, mp.node)
+				q.fids = append(q.fids, w.points[id].node)
 			}
 		}
 		ss = append(ss, uuid.New().String()) // an unknown id is simply not found
@@ -752,6 +1332,27 @@ func (w *world) search(o *vh.Out, r *vh.Rng, q query) {
 	}
 }
 
+// Queries aimed at the terms on which the stored bucket and the corpus statistics differ (none on a
+// tree that maintains the index): each term alone, uncut and cut to one, then with a second term.
+// They are ordinary queries: the answer goes to the model and to the property oracle like any other.
+var aimQueries = true
+
+func (w *world) aimed(o *vh.Out, r *vh.Rng) {
+	sus := w.suspects
+	if len(sus) == 0 || !aimQueries {
+		return
+	}
+	if len(sus) > 6 {
+		sus = sus[:6]
+	}
+	for i, t := range sus {
+		o.Stats["queries-aimed-at-a-bucket-difference"] += 3
+		w.search(o, r, query{text: t, limit: 75})
+		w.search(o, r, query{text: t, limit: 1})
+		w.search(o, r, query{text: t + " " + sus[(i+1)%len(sus)], all: r.Bool(), limit: 2})
+	}
+}
+
 // ---------------------------------------------------------------- DESIGN.md §8 no. 12: the same point twice in one update batch
 
 func dupProbe(o *vh.Out, dir string, runs int) (failed int) {
@@ -791,6 +1392,8 @@ func main() {
 	nh := flag.Int("n", 30, "number of histories")
 	nq := flag.Int("q", 6, "queries after each batch")
 	dir := flag.String("out", "", "output directory")
+	flag.BoolVar(&aimQueries, "aim", true, "after a batch, query the terms on which the stored bucket differs from the corpus statistics")
+	scen := flag.Bool("scenarios", true, "replay scenarios.txt before the random histories")
 	replay := flag.String("replay", "", "replay the op lines of this file against the implementation")
 	flag.Parse()
 	zerolog.SetGlobalLevel(zerolog.Disabled)
@@ -808,6 +1411,10 @@ func main() {
 			os.Exit(3)
 		}
 	}()
+	initTokenPool()
+	if *scen {
+		runScenarios(o, rng, *dir)
+	}
 	// which variant is the code?  (DESIGN.md 2.3)
 	dupFailed := dupProbe(o, *dir, 6)
 	allowDup := dupFailed == 0
@@ -836,6 +1443,7 @@ func main() {
 			default:
 				w.delete(o, rng, pool)
 			}
+			w.aimed(o, rng)
 			for k := 0; k < *nq; k++ {
 				w.search(o, rng, w.genQuery(rng))
 			}
